@@ -55,15 +55,36 @@ Section Rt.
     destruct (e_det e) as [n dv tag vs dn bes|n dv ps dn|n dv t c|? ? ?|t|?|t|k v|t|t ?|ts| | |?|?| | |?];
       cbn [det_ok] in Hd; try contradiction; cbn [node_ok children forallb andb]; try reflexivity.
     - (* enum *)
-      destruct tag; try contradiction.
-      assert (H1 : forallb (fun v => match v_det v with VStruct ps => props_ok ps | _ => true end) vs = true).
-      { apply forallb_forall. intros v Hv. specialize (Hd v Hv). destruct (v_det v); try reflexivity. exact (proj1 Hd). }
-      rewrite H1. cbn [andb]. apply forallb_forall. intros c Hc.
-      apply in_flat_map in Hc. destruct Hc as (v & Hv & Hc). specialize (Hd v Hv). destruct (v_det v) as [|t|ts|ps].
-      + destruct Hc.
-      + destruct Hc as [<-|[]]. apply idok_in. exact Hd.
-      + apply idok_in. exact (Hd c Hc).
-      + apply in_map_iff in Hc. destruct Hc as (p & <- & Hp). apply idok_in. exact (proj2 Hd p Hp).
+      assert (Hkids : forall v, In v vs -> vdet_ok nD (get T) (v_det v) ->
+                forall c, In c (match v_det v with VSimple => [] | VItem t => [t] | VTuple ts => ts | VStruct ps => map p_ty ps end) ->
+                mem_id c (all_ids T) = true).
+      { intros v Hv Hok' c Hc. destruct (v_det v) as [|t|ts|ps]; cbn [vdet_ok] in Hok'.
+        - destruct Hc.
+        - destruct Hc as [<-|[]]. apply idok_in. exact Hok'.
+        - apply idok_in. exact (Hok' c Hc).
+        - apply in_map_iff in Hc. destruct Hc as (p & <- & Hp). apply idok_in. exact (proj2 Hok' p Hp). }
+      destruct tag as [|tg|tg ct|]; try contradiction.
+      + (* external *)
+        assert (H1 : forallb (fun v => match v_det v with VStruct ps => props_ok ps | _ => true end) vs = true).
+        { apply forallb_forall. intros v Hv. specialize (Hd v Hv). destruct (v_det v); try reflexivity. exact (proj1 Hd). }
+        rewrite H1. cbn [andb]. apply forallb_forall. intros c Hc.
+        apply in_flat_map in Hc. destruct Hc as (v & Hv & Hc). exact (Hkids v Hv (Hd v Hv) c Hc).
+      + (* internal *)
+        assert (H1 : forallb (fun v => match v_det v with
+                                       | VSimple => true
+                                       | VStruct ps => props_ok ps && negb (mem_ustr tg (wire_names ps))
+                                       | _ => false end) vs = true).
+        { apply forallb_forall. intros v Hv. specialize (Hd v Hv). destruct (v_det v); try contradiction; try reflexivity.
+          destruct Hd as [[Hp _] Hm]. rewrite Hp, Hm. reflexivity. }
+        rewrite H1. cbn [andb]. apply forallb_forall. intros c Hc.
+        apply in_flat_map in Hc. destruct Hc as (v & Hv & Hc). apply (Hkids v Hv); [|exact Hc].
+        specialize (Hd v Hv). destruct (v_det v); try contradiction; try exact I; exact (proj1 Hd).
+      + (* adjacent *)
+        destruct Hd as [Htc Hd]. rewrite Htc. cbn [negb andb].
+        assert (H1 : forallb (fun v => match v_det v with VStruct ps => props_ok ps | _ => true end) vs = true).
+        { apply forallb_forall. intros v Hv. specialize (Hd v Hv). destruct (v_det v); try reflexivity. exact (proj1 Hd). }
+        rewrite H1. cbn [andb]. apply forallb_forall. intros c Hc.
+        apply in_flat_map in Hc. destruct Hc as (v & Hv & Hc). exact (Hkids v Hv (Hd v Hv) c Hc).
     - (* struct *)
       destruct Hd as [Hp Hids]. rewrite Hp. cbn [andb]. apply forallb_forall. intros c Hc.
       apply in_map_iff in Hc. destruct Hc as (p & <- & Hp'). apply idok_in. exact (Hids p Hp').
